@@ -234,6 +234,7 @@ type exprSpec struct {
 	Lean  string      `json:"lean"`  // name of the generated definition: AutoVerif.Gen.Src.<lean>
 	Vars  [][3]string `json:"vars"`  // {go text of a leaf, lean parameter name, lean type Nat|Int|Bool|String}
 	Marks []string    `json:"marks"` // kind "tree": an effect statement whose text contains one of these counts as an exit
+	Nth   int         `json:"nth"`   // kind "fields": which composite literal containing Match (1-based, source order; 0 = first)
 }
 
 var exprs []exprSpec // loaded from extract/exprs.d/*.json (one file per property)
@@ -392,6 +393,16 @@ func translateExprs(repo string) (string, map[string]string) {
 			b.WriteString(text)
 			continue
 		}
+		if sp.Kind == "fields" {
+			text, err := translateFields(fi, fd, sp)
+			if err != nil {
+				errs[sp.Lean] = err.Error()
+				b.WriteString(fmt.Sprintf("/-- %s : %s — %s -/\ndef %sFields : Option (List String) := none\n\n", sp.File, sp.Func, strings.ReplaceAll(err.Error(), "-/", "- /"), sp.Lean))
+				continue
+			}
+			b.WriteString(text)
+			continue
+		}
 		var cands []ast.Expr
 		ast.Inspect(fd.Body, func(n ast.Node) bool {
 			switch x := n.(type) {
@@ -453,6 +464,72 @@ func translateExprs(repo string) (string, map[string]string) {
 	}
 	b.WriteString("end Src\n")
 	return b.String(), errs
+}
+
+// ---------------------------------------------------------------- struct literals translated to Lean
+//
+// kind "fields": WHAT a function writes. The Nth composite literal of the function (source order) whose printed text
+// contains Match is translated field by field: `def <lean>Fields : List String` lists the keys in source order (a field
+// added to or dropped from the literal changes it) and, per key, `def <lean>_<key> (params) : Bool|Nat` is the translated
+// value (leaves through Vars, like expressions). A Props file proves that the record the model writes at that point has
+// exactly these field values, all other fields of the model's record keeping their zero value.
+func translateFields(fi *fileInfo, fd *ast.FuncDecl, sp exprSpec) (string, error) {
+	norm := func(x string) string { return strings.Join(strings.Fields(x), "") }
+	var lits []*ast.CompositeLit
+	ast.Inspect(fd.Body, func(n ast.Node) bool {
+		if cl, ok := n.(*ast.CompositeLit); ok && strings.Contains(norm(printNode(fi.fset, cl)), norm(sp.Match)) {
+			lits = append(lits, cl)
+		}
+		return true
+	})
+	nth := sp.Nth
+	if nth <= 0 {
+		nth = 1
+	}
+	if len(lits) < nth {
+		return "", fmt.Errorf("composite literal #%d containing `%s` not found (%d found)", nth, sp.Match, len(lits))
+	}
+	cl := lits[nth-1]
+	vars := map[string][2]string{}
+	params := ""
+	for _, v := range sp.Vars {
+		vars[v[0]] = [2]string{v[1], v[2]}
+		if v[2] != "const" {
+			params += fmt.Sprintf(" (%s : %s)", v[1], v[2])
+		}
+	}
+	var b strings.Builder
+	var keys []string
+	pos := fi.fset.Position(cl.Pos())
+	for _, el := range cl.Elts {
+		kv, ok := el.(*ast.KeyValueExpr)
+		if !ok {
+			return "", fmt.Errorf("literal at line %d has an element without a key", pos.Line)
+		}
+		key := printNode(fi.fset, kv.Key)
+		used := map[string]bool{}
+		lean, isBool, err := trExpr(fi.fset, kv.Value, vars, used)
+		if err != nil {
+			return "", fmt.Errorf("field %s of the literal at line %d: %v", key, pos.Line, err)
+		}
+		ty := "Nat"
+		if isBool {
+			ty = "Bool"
+		} else if v, ok := vars[printNode(fi.fset, kv.Value)]; ok && v[1] != "const" {
+			ty = v[1]
+		}
+		keys = append(keys, key)
+		b.WriteString(fmt.Sprintf("/-- %s : %s — line %d, field `%s: %s` of the %s literal -/\ndef %s_%s%s : %s :=\n  %s\n\n",
+			sp.File, sp.Func, fi.fset.Position(kv.Pos()).Line, key, strings.ReplaceAll(printNode(fi.fset, kv.Value), "-/", "- /"),
+			printNode(fi.fset, cl.Type), sp.Lean, key, params, ty, lean))
+	}
+	q := make([]string, len(keys))
+	for i, k := range keys {
+		q[i] = fmt.Sprintf("%q", k)
+	}
+	b.WriteString(fmt.Sprintf("/-- %s : %s — the keys of the %s literal at line %d, in source order -/\ndef %sFields : List String :=\n  [%s]\n\n",
+		sp.File, sp.Func, printNode(fi.fset, cl.Type), pos.Line, sp.Lean, strings.Join(q, ", ")))
+	return b.String(), nil
 }
 
 // ---------------------------------------------------------------- decision trees translated to Lean
